@@ -201,6 +201,8 @@ func checkC12(p *Program, r *Result) {
 	r.rule("C12.b", "both chunk decoders accept the same compressions", 1)
 	r.rule("C12.o", "chunk slot buffers own their bytes", 2)
 	r.rule("C12.e", "how messages are partitioned into chunks does not affect ordered reads: load trigger re-evaluated after every chunk load", 1)
+	r.rule("C12.t", "sequential reading expands every chunk regardless of its time range", 1)
+	checkChunkTimesUnused(p, r, "C12.t")
 	r.rule("C12.n", "a chunk index without message indexes (an optional part) is never dropped by the channel filter", 0)
 	checkKeepWithoutMessageIndexes(p, r, "C12.n")
 	r.rule("C12.c", "optional summary parts are not required on the message path", 1)
